@@ -68,6 +68,8 @@ func guardOf(stmts []ast.Stmt, lenName string) (guard string, fail string) {
 }
 
 func genWireTable() {
+	loadPkgConsts("config")
+	loadPkgConsts("protocol")
 	f := parse("protocol/reader.go")
 	fd := findFunc(f, "Read")
 	type grow struct {
